@@ -58,7 +58,7 @@ pub fn run_bytes(data: &[u8]) -> Option<(usize, Vec<u32>, String, String)> {
 pub fn fuzz_one(data: &[u8]) {
   if let Some((part, picks, sig, detail)) = run_bytes(data) {
     let st = state();
-    let dir = run::verif_dir().join("replays");
+    let dir = run::out_dir().join("replays");
     let _ = std::fs::create_dir_all(&dir);
     let path = dir.join(format!("{}-fuzz-{:016x}.json", st.prop.id, run::hash_of(&(part, &picks))));
     let j = serde_json::json!({"property": st.prop.id, "part": part, "part_name": st.prop.parts[part].name, "picks": picks, "signature": sig, "detail": detail, "found_by": "libFuzzer"});
